@@ -225,6 +225,43 @@ def _job(args):
     return args, n, len(hs), sorted(classes), viols
 
 
+def recorded_after_restart(args):
+    """After a restart the jobs recorded for the next restart must again be exactly the jobs in flight
+    (so that a crash that follows an earlier restart re-issues them): every completion order and outcome,
+    restart after the first or second step, two more steps."""
+    from checks import c03
+
+    W, restart_after = args
+    spec = l1.Spec(B=3, workers=W, real_store=True, alphabet="min")
+    wd = os.path.join(scratch.mkdtemp("c08r"), "run")
+    old = os.getcwd()
+    viols = {}
+    n = 0
+    try:
+        def fn(ch):
+            run = l1.L1Run(spec, ch, wd, [c03.MutexObserver()])
+            run.start()
+            for _ in range(restart_after):
+                run.event()
+            run.restart()
+            run.event()
+            run.event()
+            return "ok"
+
+        for ch, res in explore(l1._guard(fn), max_dev=1, free=("complete", "outcome")):
+            n += 1
+            if isinstance(res, l1.Violation) and res.sig == "state:recorded-inflight-jobs":
+                viols.setdefault("recorded-jobs-after-restart", (f"W={W}, restart after {restart_after} step(s): {res.msg}",
+                                                                dict(kind="rec", W=W, restart_after=restart_after, choices=ch.choices)))
+            elif isinstance(res, l1.Violation):
+                viols.setdefault("after-restart:" + res.sig, (res.msg, dict(kind="rec", W=W, restart_after=restart_after, choices=ch.choices)))
+    finally:
+        os.chdir(old)
+        l1.deactivate()
+        scratch.rmtree(os.path.dirname(wd))
+    return args, n, viols
+
+
 def run(ctx):
     import multiprocessing as mp
 
@@ -244,8 +281,15 @@ def run(ctx):
     if not ctx.quick:
         jobs.append((1, True, False, 6, False, torn, (1, 9), per_label))
     with mp.get_context("fork").Pool(min(16, os.cpu_count() or 1)) as pool:
+        rres = pool.map_async(recorded_after_restart, [(2, 1), (2, 2)], chunksize=1)
         res = pool.map(_job, jobs, chunksize=1)
+        rres = rres.get()
     n = nh = 0
+    for args, k, viols in rres:
+        n += k
+        ctx.distinct(("recorded-after-restart", args, k))
+        for sig, (msg, rp) in viols.items():
+            ctx.violation(sig, msg, rp)
     seen = set()
     for args, k, h, classes, viols in res:
         n += k
@@ -272,6 +316,9 @@ def run(ctx):
 
 
 def replay(data):
+    if data.get("kind") == "rec":
+        a, n, viols = recorded_after_restart((data["W"], data["restart_after"]))
+        return [(sig, msg) for sig, (msg, _) in viols.items()]
     W, delete_old, delete_all, n_events, restart_before = data["args"]
     spec = mkspec(W, delete_old, delete_all)
     wd = os.path.join(scratch.mkdtemp("c08r"), "run")
